@@ -1010,7 +1010,7 @@ class TorchBackendProvider(BackendProvider):
 
         param_names = list(self._collect_params(ir))
         fn_source = f"def _expr({', '.join(param_names)}): return {source}"
-        ns = {}
+        ns = self._compiled_namespace()
         try:
             exec(fn_source, ns)
         except Exception:
@@ -1033,7 +1033,11 @@ class TorchBackendProvider(BackendProvider):
             r = self._ir_to_source(right)
             if l is None or r is None:
                 return None
-            py_op = {'+': '+', '-': '-', '*': '*', '%': '/', '^': '**'}.get(op)
+            if op == '^':
+                return f'_kg_power({l},{r})'
+            if op == '%':
+                return f'_kg_divide({l},{r})'
+            py_op = {'+': '+', '-': '-', '*': '*'}.get(op)
             if py_op is None:
                 return None
             return f'({l}{py_op}{r})'
